@@ -14,6 +14,9 @@
 (*   small units (L4, L5, NormSmall, WS1..WS3): the same integer matrices with columns divided by 2^14..2^20   *)
 (*           (exact in binary floating point; the unit sh[j] is carried by the case): uniformly small data and one  *)
 (*           small-unit column next to a unit column                                                             *)
+(*   layouts: every case hands its record matrices to the code in one of six memory layouts (row-major, column-major,  *)
+(*           transposed, reversed rows, reversed columns, strided) chosen by the content hash; NormLay / LinLay /   *)
+(*           WhLay enumerate all five non-standard layouts explicitly                                             *)
 (*   empty : fitting each of the nine estimators on 0 x p data, p = 0..2                           *)
 (* Dimensions that do not change the expected answer (float type, form, targets, weights,          *)
 (* constructor, whether the selection is empty) are derived from a hash of the case content.       *)
@@ -52,6 +55,12 @@ Deco(h) == [ft |-> IF h % 4 = 3 THEN "f32" ELSE "f64",
 SmallM(X) == \A i \in 1..Len(X) : \A j \in 1..Len(X[i]) : X[i][j] <= 9 /\ X[i][j] >= -9
 Ft(d, X) == IF SmallM(X) THEN d.ft ELSE "f64"
 
+\* memory layouts of the record matrices handed to the code (harness/src/bin/c16.rs `records`)
+Layouts == <<"c", "f", "t", "revr", "revc", "step">>
+LayOf(h) == Layouts[((h \div 11) % 6) + 1]
+WithLay(cs, lay) == [cs EXCEPT !.inp.lay = lay]
+OtherLays == {"f", "t", "revr", "revc", "step"}
+
 \* sh[j]: column j is expressed in the unit 2^-sh[j] (the harness divides the integers by 2^sh[j], exactly)
 NoSh(p) == [j \in 1..p |-> 0]
 Uniform(sh) == \A j \in 1..Len(sh) : sh[j] = sh[1]
@@ -59,7 +68,7 @@ LinCaseU(X, p, Z, v, sh) ==
   LET h == Hash(X) + VarIdx(v) + SumQ(sh)
       d == Deco(h)
   IN [kind |-> "lin",
-      inp |-> [ft |-> Ft(d, X), form |-> d.form, tw |-> d.tw, wts |-> d.wts, ctor |-> d.ctor, sh |-> sh,
+      inp |-> [ft |-> Ft(d, X), form |-> d.form, tw |-> d.tw, wts |-> d.wts, ctor |-> d.ctor, sh |-> sh, lay |-> LayOf(h),
                meth |-> v[1], lo |-> v[2], hi |-> v[3], p |-> p, X |-> X, Z |-> Z, sel |-> SelFor(Len(X), h)]]
 LinCase(X, p, Z, v) == LinCaseU(X, p, Z, v, NoSh(p))
 
@@ -93,7 +102,7 @@ NormCaseU(p, b, m, e) ==                        \* e: every column in the unit 2
       h == Hash(X) + (IF m = "l1" THEN 0 ELSE IF m = "l2" THEN 1 ELSE 2) + e
       d == Deco(h)
   IN [kind |-> "norm",
-      inp |-> [ft |-> d.ft, form |-> d.form, tw |-> d.tw, wts |-> d.wts, meth |-> m, p |-> p, sh |-> [j \in 1..p |-> e],
+      inp |-> [ft |-> d.ft, form |-> d.form, tw |-> d.tw, wts |-> d.wts, meth |-> m, p |-> p, sh |-> [j \in 1..p |-> e], lay |-> LayOf(h),
                X |-> X, Z |-> <<>>, sel |-> IF h % 7 = 0 THEN <<>> ELSE <<6, 5, 4, 3, 2, 1, 6>>]]
 NormCase(p, b, m) == NormCaseU(p, b, m, 0)
 NormCases == UNION {{NormCase(p, b, m) : b \in 0..(Pow6(p) \div 6 - 1), m \in {"l1", "l2", "max"}} : p \in 1..PN}
@@ -107,7 +116,7 @@ WhCaseU(X, p, Z, m, sh) ==
       d == Deco(h)
   IN [kind |-> "wh",
       inp |-> [ft |-> IF Uniform(sh) THEN Ft(d, X) ELSE "f64", form |-> d.form, tw |-> d.tw, wts |-> d.wts,
-               ctor |-> d.ctor, sh |-> sh, meth |-> m, p |-> p, X |-> X, Z |-> Z, sel |-> SelFor(Len(X), h)]]
+               ctor |-> d.ctor, sh |-> sh, lay |-> LayOf(h), meth |-> m, p |-> p, X |-> X, Z |-> Z, sel |-> SelFor(Len(X), h)]]
 WhCase(X, p, Z, m) == WhCaseU(X, p, Z, m, NoSh(p))
 W1 == {WhCase(X, 1, ZFix(1), m) :
          X \in {Y \in UNION {[1..n -> [1..1 -> V1]] : n \in 2..3} : IsSorted(Y) /\ Y[1] # Y[Len(Y)]}, m \in WhMethods}
@@ -146,15 +155,29 @@ W5 == {WhCase(X, 3, << <<0, 0, 0>>, <<2, -2, 15>> >>, m) :
                   S!FullRank(Y, 3)},
          m \in WhMethods}
 
+\* every layout explicitly (besides the hash-assigned layout of every other case): norm scaler on all two-column
+\* batches and four three-column batches x three norms; linear scalers on nine three-row two-column matrices x nine
+\* variants; whiteners on a sample of full-rank two-column matrices x three methods -- each in the five
+\* non-standard layouts, for fit and for every transformed batch
+NormLay == {WithLay(NormCase(p, b, m), lay) : p \in {2}, b \in 0..5, m \in {"l1", "l2", "max"}, lay \in OtherLays}
+             \cup {WithLay(NormCase(3, b, m), lay) : b \in {0, 7, 20, 35}, m \in {"l1", "l2", "max"}, lay \in OtherLays}
+NormStd == {WithLay(cs, "c") : cs \in NormCases}        \* every norm batch also in the standard layout
+LinLay == {WithLay(LinCase(X, 2, ZFix(2), v), lay) :
+             X \in {Y \in [1..3 -> [1..2 -> V2]] : Hash(Y) % 81 = 5}, v \in LinVariants, lay \in OtherLays}
+WhLay == {WithLay(WhCase(X, 2, ZFix(2), m), lay) :
+            X \in {Y \in UNION {[1..n -> [1..2 -> V2]] : n \in 3..NW} : Hash(Y) % (16 * ThinW) = 7 /\ S!FullRank(Y, 2)},
+            m \in WhMethods, lay \in OtherLays}
+
 Estimators == {"std", "nomean", "nostd", "none", "minmax", "maxabs"} \cup WhMethods
 Empty == {[kind |-> "empty",
            inp |-> [ft |-> ft, form |-> IF p = 1 THEN "view" ELSE "owned", tw |-> 0, wts |-> FALSE, ctor |-> "named",
-                    sh |-> [j \in 1..p |-> 0], meth |-> m, lo |-> 0, hi |-> 1, p |-> p]] : m \in Estimators, p \in 0..2, ft \in {"f64", "f32"}}
+                    sh |-> [j \in 1..p |-> 0], lay |-> "c", meth |-> m, lo |-> 0, hi |-> 1, p |-> p]] : m \in Estimators, p \in 0..2, ft \in {"f64", "f32"}}
 
 \* (a disjunction, not one union: TLC then enumerates the eight sets without normalising their union)
 Init == \/ case \in L1 \/ case \in L2 \/ case \in L3 \/ case \in L4 \/ case \in L5 \/ case \in NormCases \/ case \in NormSmall
         \/ case \in W1 \/ case \in W2 \/ case \in W3 \/ case \in W4 \/ case \in W5
-        \/ case \in WS1 \/ case \in WS2 \/ case \in WS3 \/ case \in Empty
+        \/ case \in WS1 \/ case \in WS2 \/ case \in WS3 \/ case \in NormLay \/ case \in NormStd \/ case \in LinLay \/ case \in WhLay
+        \/ case \in Empty
 Next == UNCHANGED case
 Emit == PrintT("CASE " \o ToJson(case))
 =============================================================================
